@@ -24,8 +24,17 @@ type rec14 struct {
 
 // Log14 is a base log given segment by segment.
 type Log14 struct {
-	Name string
-	Segs [][]rec14
+	Name    string
+	Segs    [][]rec14
+	T0      int64 // time of DT 0 in microseconds (0: one second)
+	DelLast bool  // every message of the last segment is deleted again: the log ends in an empty head
+}
+
+func (l Log14) t0() int64 {
+	if l.T0 != 0 {
+		return l.T0
+	}
+	return 1_000_000
 }
 
 func uniform14(name string, segs, perSeg int) Log14 {
@@ -50,19 +59,22 @@ var Shapes14 = []Log14{
 	uniform14("3 segments x 2", 3, 2),
 	uniform14("3 segments x 3", 3, 3),
 	// records of different sizes, an empty key, empty values
-	{"3 segments, mixed sizes", [][]rec14{
+	// (times around 40 Mi microseconds: read as a V1 length field they are far above the file size)
+	{Name: "3 segments, mixed sizes", Segs: [][]rec14{
 		{{"a", "", 0}, {"", "v01", 1}},
 		{{"b", "0123456789012345678901234567890123456789", 1}, {"a", "x", 2}},
 		{{"c", "y", 2}, {"b", "", 3}},
-	}},
+	}, T0: 40 << 20},
 	// one-message segments, equal times running through three segments
-	{"4 segments 1-2-1-2", [][]rec14{
+	{Name: "4 segments 1-2-1-2", Segs: [][]rec14{
 		{{"a", "v00", 0}},
 		{{"b", "v01", 0}, {"a", "v02", 1}},
 		{{"a", "v03", 1}},
 		{{"c", "v04", 1}, {"b", "v05", 2}},
 	}},
 	uniform14("5 segments x 2", 5, 2),
+	// sealed segments followed by an empty head (the whole head was deleted)
+	{Name: "3 segments x 2 + empty head", Segs: append(uniform14("", 3, 2).Segs, []rec14{{"a", "v06", 4}, {"b", "v07", 5}}), DelLast: true},
 }
 
 type pub struct {
@@ -91,12 +103,24 @@ func Build14(dir string, sh Log14) ([]pub, []string, error) {
 	for _, seg := range sh.Segs {
 		var ms []klevdb.Message
 		for _, r := range seg {
-			ms = append(ms, klevdb.Message{Time: time.UnixMicro(1_000_000 + r.DT).UTC(), Key: []byte(r.K), Value: []byte(r.V)})
+			ms = append(ms, klevdb.Message{Time: time.UnixMicro(sh.t0() + r.DT).UTC(), Key: []byte(r.K), Value: []byte(r.V)})
 			n++
 		}
 		if _, err := lg.Publish(ms); err != nil {
 			return nil, nil, err
 		}
+	}
+	segs := sh.Segs
+	if sh.DelLast {
+		del := map[int64]struct{}{}
+		for i := n - len(segs[len(segs)-1]); i < n; i++ {
+			del[int64(i)] = struct{}{}
+		}
+		if _, _, err := lg.Delete(del); err != nil {
+			return nil, nil, err
+		}
+		n -= len(del)
+		segs = append(append([][]rec14{}, segs[:len(segs)-1]...), nil)
 	}
 	if err := lg.Close(); err != nil {
 		return nil, nil, err
@@ -116,15 +140,15 @@ func Build14(dir string, sh Log14) ([]pub, []string, error) {
 		if !clean {
 			return nil, nil, fmt.Errorf("fresh segment %s does not parse", ln)
 		}
-		if len(recs) != len(sh.Segs[si]) {
-			return nil, nil, fmt.Errorf("segment %s holds %d records, want %d", ln, len(recs), len(sh.Segs[si]))
+		if si >= len(segs) || len(recs) != len(segs[si]) {
+			return nil, nil, fmt.Errorf("segment %s holds %d records, not what the shape says", ln, len(recs))
 		}
 		for _, r := range recs {
 			pubs = append(pubs, pub{Off: r.Off, T: r.T, Key: r.Key, Val: r.Val, Seg: si, Pos: r.Pos, End: r.Pos + r.Size})
 		}
 	}
-	if len(pubs) != n || len(logs) != len(sh.Segs) {
-		return nil, nil, fmt.Errorf("built %d messages in %d segments, want %d in %d", len(pubs), len(logs), n, len(sh.Segs))
+	if len(pubs) != n || len(logs) != len(segs) {
+		return nil, nil, fmt.Errorf("built %d messages in %d segments, want %d in %d", len(pubs), len(logs), n, len(segs))
 	}
 	return pubs, logs, nil
 }
@@ -213,7 +237,7 @@ type call struct {
 
 func sweep(pubs []pub) []call {
 	var cs []call
-	next := int64(len(pubs))
+	next := int64(len(pubs)) + 2 // (two more: base logs that end in an empty head had two messages deleted)
 	offs := []int64{klevdb.OffsetOldest, klevdb.OffsetNewest}
 	for o := int64(0); o <= next+1; o++ {
 		offs = append(offs, o)
@@ -263,7 +287,7 @@ func sweep(pubs []pub) []call {
 			}
 		}
 	}
-	for t := int64(1_000_000 - 1); t <= 1_000_000+next; t++ {
+	for t := pubs[0].T - 1; t <= pubs[len(pubs)-1].T+2; t++ {
 		t := t
 		cs = append(cs, call{fmt.Sprintf("GetByTime(%d)", t), func(l klevdb.Log) ([]klevdb.Message, error) {
 			m, err := l.GetByTime(time.UnixMicro(t))
